@@ -501,6 +501,7 @@ class C14(Check):
         self.correspond(ctx, impl, seqs)
         self.expand_correspond(ctx, impl, rng)
         self.termination_correspond(ctx, impl, ctx.sub_rng('c14-term'))
+        self.oracle_builtin_macros(ctx, impl)
         self.oracle(ctx, impl, seqs, rng)
 
     # -- generators --------------------------------------------------------------------------------
@@ -877,7 +878,7 @@ class C14(Check):
                     ctx.disagree('_expand_macros', {'macros': m, 'value': v}, got, rep)
 
     # -- termination of the expansion (T14.6) ---------------------------------------------------------
-    TERM_NAMES = ['a', 'b', 'c1', 'd-e', 'f', 'g']
+    TERM_NAMES = ['a', 'b', 'c1', 'd-e', 'f', 'g', 'h2', 'i-']
     TERM_LIT = ['x', '|', '(', ')', '{', '}', '{2}', '{1,2}', 'A', ' ', '-', 'a', '{A}', '{1a}', '\\{', '']
 
     def gen_term_case(self, rng):
@@ -886,7 +887,7 @@ class C14(Check):
         names = list(self.TERM_NAMES)
         rng.shuffle(names)
         names = names[:rng.randint(1, len(names))]
-        kind = rng.choice(['ranked', 'ranked', 'ranked', 'free', 'ring'])
+        kind = rng.choice(['ranked', 'ranked', 'ranked', 'free', 'ring', 'chain'])
         m = {}
 
         def body(allowed):
@@ -904,11 +905,16 @@ class C14(Check):
                 m[k] = body(names[i + 1:])
             elif kind == 'free':
                 m[k] = body(names)
+            elif kind == 'chain':
+                # every macro uses the next one: as many passes as there are names
+                m[k] = rng.choice(['', 'x', '(']) + ('{%s}' % names[i + 1] if i + 1 < len(names) else 'z')
             else:
                 m[k] = rng.choice(['', 'x', '(']) + '{%s}' % names[(i + 1) % len(names)] + rng.choice(['', '|y'])
         if rng.random() < 0.15:
             m[rng.choice(['A', '1x', 'a b'])] = '{%s}' % rng.choice(names)   # a key no placeholder can name
         v = body(names + ['nosuch'] if rng.random() < 0.1 else names)
+        if kind == 'chain' and rng.random() < 0.7:
+            v = '{%s}' % names[0]
         return m, v, kind
 
     def term_case(self, ctx, impl, m, v, kind, reps):
@@ -964,6 +970,40 @@ class C14(Check):
             if r_passes != want:
                 ctx.disagree('passes of _expand_macros', {'macros': m, 'value': v}, want, r_passes)
 
+    def oracle_builtin_macros(self, ctx, impl):
+        """the built-in macro set itself (token macros, general macros, the macros of the built-in profiles): a cycle
+        in it makes `addProfile` hang for every definition that names a macro on the cycle"""
+        env = c14_profiles.final_env(self.tables(ctx))
+        if py_acyclic(env):
+            return
+        for k in env:
+            sub = {k: env[k]}
+            todo = [k]
+            while todo:                      # the macros `k` reaches
+                for n in PH.findall(sub[todo.pop()]):
+                    if n in env and n not in sub:
+                        sub[n] = env[n]
+                        todo.append(n)
+            if py_acyclic(sub):
+                continue
+            p = impl.fresh()
+            impl.P.re = CountingRe(re, 200)
+            try:
+                with time_limit(5.0):
+                    p.addProfile('T', {'t': '{%s}' % k})
+                outcome = 'returned'
+            except (TooManyPasses, TimeLimit):
+                outcome = 'Diverges'
+            except Exception as e:
+                outcome = exc_name(e)
+            finally:
+                impl.P.re = re
+            if outcome == 'Diverges':
+                ctx.violate('T14.6 the built-in macros have no cycle', {'oracle': 'O9', 'history': [['add', 'T', {'t': '{%s}' % k}, None]]},
+                            "addProfile('T', {'t': '{%s}'}) on a fresh Profiles() does not return: the built-in macro "
+                            "%r is on a cycle (%s)" % (k, k, ', '.join(sorted(sub))))
+                return
+
     def term_lines(self, m, v, with_passes):
         ms = enc_macros(m) if m else 'E'
         ls = ['phs %s' % enc(v), 'acyc %s' % ms]
@@ -992,7 +1032,7 @@ class C14(Check):
         for m, v, kind in cases:
             # a cycle that is not a ring of single references can double the text with every pass: no `passes`
             # request then (model and implementation would both be stopped by the size, not by the property)
-            wp = kind in ('ranked', 'ring', 'builtin') or py_acyclic(m)
+            wp = kind in ('ranked', 'ring', 'chain', 'builtin') or py_acyclic(m)
             ls = self.term_lines(m, v, wp)
             shape.append((len(lines), wp))
             lines += ls
@@ -1248,6 +1288,12 @@ class C14(Check):
         seqs = [d['input']['history'] for d in ctx.disagreements
                 if isinstance(d.get('input'), dict) and d['input'].get('history')]
         seqs += self.corpus(ctx) + self.fixed_histories()
+        self.oracle_builtin_macros(ctx, impl)
+        if ctx.violations:
+            return
+        self.termination_correspond(ctx, impl, ctx.sub_rng('c14-term'))
+        if ctx.violations:
+            return
         for ops in seqs:
             self.oracle_history(ctx, impl, ops, rng)
             if ctx.violations:
@@ -1265,7 +1311,9 @@ class C14(Check):
         self.builtin_order = t['order']
         rng = ctx.sub_rng('replay')
         w = data.get('witness') or {}
-        if w.get('oracle') == 'O8':
+        if w.get('oracle') == 'O9':
+            self.oracle_builtin_macros(ctx, impl)
+        elif w.get('oracle') == 'O8':
             self.termination_correspond(ctx, impl, rng, only=[(w['macros'], w['value'], w.get('kind', 'free'))])
         elif data.get('kind') == 'impl-violates' and w.get('oracle') == 'O1':
             self.oracle_twin(ctx, impl, rng, fixed=(w['ops'], w['insert_at'], w['remove_at'], w['profile']))
